@@ -221,6 +221,51 @@ def check(chk):
            g.where(), detail=str(got), construct=g.ident, text="pf missing balls")
     chk.floor("DELTA-1", 13)
 
+    # ------------------------------------------------------------- BOUND-3: entrance-counted devices never count beyond capacity
+    from sa.helpers import feasible_paths
+    ES = "mpf/devices/ball_device/entrance_switch_counter.py"
+    ec = repo.cls(ES, "EntranceSwitchCounter")
+    CAP = "self.config['ball_capacity']"
+    n_st = 0
+    for m in ec.methods.values():
+        cfg = None
+        for x in walk_local(m.node):
+            if not (isinstance(x, (ast.Assign, ast.AugAssign)) and any(src(t) == "self._last_count" for t in assigned_targets(x))):
+                continue
+            cfg = cfg or m.cfg()
+            chk.analysed(m)
+            n_st += 1
+            node = [n for n in cfg.nodes if n.kind == "stmt" and n.ast is x][0]
+            if isinstance(x, ast.Assign):
+                v = src(x.value)
+                ok = v in ("0", CAP, "None")
+                chk.ob("BOUND-3", "entrance counter is set to 0 or to the capacity (%s)" % m.name, ok, m.where(x), detail="= " + v,
+                       construct=m.ident, text="_last_count = " + v)
+            elif isinstance(x.op, ast.Sub):
+                chk.ob("BOUND-3", "entrance counter drops by one per ball that left (%s)" % m.name, src(x.value) == "1", m.where(x),
+                       construct=m.ident, text="_last_count -= " + src(x.value))
+            else:
+                amt = src(x.value)
+                paths = feasible_paths(cfg, cfg.entry.id, [node.id])
+                if amt == "1":
+                    bad = None
+                    for pth, fx in paths:
+                        if not (fx.get("%s <= self._last_count" % CAP) is False or fx.get(CAP) is False or
+                                fx.get("self._last_count < %s" % CAP) is True or fx.get("%s > self._last_count" % CAP) is True):
+                            bad = pth
+                            break
+                    chk.ob("BOUND-3", "a ball is counted only while the device is below its capacity (%s)" % m.name, bool(paths) and bad is None,
+                           m.where(x), path=cfg.fmt_path(bad, ES) if bad else None,
+                           detail="a full entrance-counted device would count capacity+1 (and capture a ball that is still loose)",
+                           construct=m.ident, text="_last_count += 1 beyond capacity")
+                else:
+                    d = [y for y in walk_local(m.node) if isinstance(y, ast.Assign) and src(y.targets[0]) == amt]
+                    ok = len(d) == 1 and src(d[0].value).replace(" ", "") == (CAP + "-self._last_count").replace(" ", "") and \
+                        cfg.guards_at(node.id).get("%s > 0" % amt) is True
+                    chk.ob("BOUND-3", "a bulk increase fills the device exactly to capacity (%s)" % m.name, ok, m.where(x), construct=m.ident,
+                           text="_last_count += %s" % amt)
+    chk.expect(n_st >= 5, "C04: stores to the entrance counter lost (%d)" % n_st)
+
 
 def battery():
     from sa.battery import M
@@ -240,6 +285,8 @@ def battery():
         M("pf counts eject for other playfield", PF, "        if target == self:\n            self.debug_log(\"A source device has confirmed it's ejected %s \"", "        if target.is_playfield():\n            self.debug_log(\"A source device has confirmed it's ejected %s \"", "DELTA-1"),
         M("pf removed ball keeps available", PF, "        self.balls -= balls\n        self.available_balls -= balls\n        for _ in range(balls):", "        self.balls -= balls\n        for _ in range(balls):", "DELTA-1"),
         M("missing diff wrong", BC, "await self._handle_missing_balls(new_balls, old_ball_count - new_balls)", "await self._handle_missing_balls(new_balls, old_ball_count)", "DELTA-1"),
+        M("entrance counter counts beyond capacity", "mpf/devices/ball_device/entrance_switch_counter.py", "self.config['ball_capacity'] <= self._last_count:", "self.config['ball_capacity'] < self._last_count:", "BOUND-3"),
+        M("full handler overfills", "mpf/devices/ball_device/entrance_switch_counter.py", "        new_balls = self.config['ball_capacity'] - self._last_count", "        new_balls = self.config['ball_capacity'] - self._last_count + 1", "BOUND-3"),
         # twins
         M("twin: path[-1]", BD, "        target = path[len(path) - 1]", "        target = path[-1]", None),
         M("twin: debug log moved", BC, "            if free_space <= incoming_balls:\n                self.debug_log(", "            if free_space <= incoming_balls:\n                self.info_log(", None),
